@@ -287,7 +287,7 @@ def main(argv):
                        'inside the register files; histories are arbitrary finite lists',
                        'sampled histories only decide whether the real code still behaves like the models']
     thorough = vlib.tier() == 'thorough'
-    n = 4000 if thorough else 500
+    n = 4000 if thorough else 400
 
     replay_file = argv[argv.index('--replay') + 1] if '--replay' in argv else None
 
@@ -347,7 +347,7 @@ def main(argv):
 
     bad = [(i, monitor(c)) for i, c in enumerate(cases)]
     bad = [(i, m) for i, m in bad if m]
-    okc, mism, clog = vlib.eval_cases(PROP, HEADER, [c['coq'] for c in cases], shard_size=20)
+    okc, mism, clog = vlib.eval_cases(PROP, HEADER, [c['coq'] for c in cases], shard_size=max(20, (len(cases) + 15) // 16))
     rep.obligation('correspondence: %d histories (every answer of both register stores + final storage) evaluated by the models' % len(cases),
                    okc and not mism)
 
